@@ -150,3 +150,85 @@ pub fn dsv_index_from_words(markers: Vec<u64>, newlines: Vec<u64>, text_len: usi
 /// YAML scanning kernels per dispatch level (C16): scalar kernels always,
 /// `yaml_simd::x86` (AVX2 / SSE2 kernels, dispatch clamp) on x86_64 unless `scalar-yaml`.
 pub use crate::yaml::simd::verif as yaml_simd;
+
+// ---------------------------------------------------------------------------
+// JSON semi-index engines (each engine reachable on its own) and PFSM tables.
+// ---------------------------------------------------------------------------
+
+pub use crate::json::pfsm_tables::{PHI_TABLE, TRANSITION_TABLE};
+
+/// Reference byte-at-a-time standard-cursor state machine.
+pub fn json_standard_scalar(json: &[u8]) -> crate::json::standard::SemiIndex {
+    crate::json::standard::build_semi_index_scalar(json)
+}
+
+/// Table-driven PFSM standard-cursor builder (`standard::build_semi_index`).
+pub fn json_standard_pfsm(json: &[u8]) -> crate::json::standard::SemiIndex {
+    crate::json::standard::build_semi_index(json)
+}
+
+/// Reference byte-at-a-time simple-cursor state machine.
+pub fn json_simple_scalar(json: &[u8]) -> crate::json::simple::SemiIndex {
+    crate::json::simple::build_semi_index(json)
+}
+
+/// AVX2 standard-cursor builder; `None` when AVX2 is not available.
+#[cfg(all(target_arch = "x86_64", feature = "std"))]
+pub fn json_standard_avx2(json: &[u8]) -> Option<crate::json::standard::SemiIndex> {
+    if std::arch::is_x86_feature_detected!("avx2") {
+        Some(crate::json::simd::avx2::build_semi_index_standard(json))
+    } else {
+        None
+    }
+}
+
+/// AVX2 simple-cursor builder; `None` when AVX2 is not available.
+#[cfg(all(target_arch = "x86_64", feature = "std"))]
+pub fn json_simple_avx2(json: &[u8]) -> Option<crate::json::simple::SemiIndex> {
+    if std::arch::is_x86_feature_detected!("avx2") {
+        Some(crate::json::simd::avx2::build_semi_index_simple(json))
+    } else {
+        None
+    }
+}
+
+/// SSE2 standard-cursor builder.
+#[cfg(target_arch = "x86_64")]
+pub fn json_standard_sse2(json: &[u8]) -> crate::json::standard::SemiIndex {
+    crate::json::simd::x86::build_semi_index_standard(json)
+}
+
+/// SSE2 simple-cursor builder.
+#[cfg(target_arch = "x86_64")]
+pub fn json_simple_sse2(json: &[u8]) -> crate::json::simple::SemiIndex {
+    crate::json::simd::x86::build_semi_index_simple(json)
+}
+
+/// Runtime-dispatched standard-cursor builder (`json::simd::build_semi_index_standard`).
+#[cfg(all(target_arch = "x86_64", feature = "std"))]
+pub fn json_standard_dispatch(json: &[u8]) -> crate::json::standard::SemiIndex {
+    crate::json::simd::build_semi_index_standard(json)
+}
+
+/// Runtime-dispatched simple-cursor builder (`json::simd::build_semi_index_simple`).
+#[cfg(all(target_arch = "x86_64", feature = "std"))]
+pub fn json_simple_dispatch(json: &[u8]) -> crate::json::simple::SemiIndex {
+    crate::json::simd::build_semi_index_simple(json)
+}
+
+/// AVX2 `classify_chars` masks (quotes, backslashes, opens, closes, delims,
+/// value_chars) of one 32-byte chunk; `None` when AVX2 is not available.
+#[cfg(all(target_arch = "x86_64", feature = "std"))]
+pub fn json_classify_avx2(chunk: &[u8; 32]) -> Option<[u32; 6]> {
+    if std::arch::is_x86_feature_detected!("avx2") {
+        Some(crate::json::simd::avx2::verif_classify_chars(chunk))
+    } else {
+        None
+    }
+}
+
+/// SSE2 `classify_chars` masks of one 16-byte chunk.
+#[cfg(target_arch = "x86_64")]
+pub fn json_classify_sse2(chunk: &[u8; 16]) -> [u32; 6] {
+    crate::json::simd::x86::verif_classify_chars(chunk)
+}
